@@ -1,7 +1,8 @@
 use crate::{
     program::{Program, ProgramLocation},
+    statement::MAX_STATEMENT_DEPTH,
     symbol::Symbol,
-    InterpreterError, SyntaxError, Token, TracedInterpreterError,
+    InterpreterError, OutOfMemoryError, SyntaxError, Token, TracedInterpreterError,
 };
 
 use super::{
@@ -22,6 +23,7 @@ struct LValue {
 pub struct StatementAnalyzer<'a> {
     program: &'a mut Program,
     symbol_accesses: &'a mut SymbolAccessMap,
+    depth: usize,
 }
 
 impl<'a> StatementAnalyzer<'a> {
@@ -29,10 +31,23 @@ impl<'a> StatementAnalyzer<'a> {
         StatementAnalyzer {
             program,
             symbol_accesses,
+            depth: 0,
         }
     }
 
     pub fn evaluate_statement(&mut self) -> Result<(), TracedInterpreterError> {
+        // The interpreter refuses to nest statements deeper than this, and
+        // we'd run out of native stack ourselves at some point.
+        if self.depth == MAX_STATEMENT_DEPTH {
+            return Err(OutOfMemoryError::StackOverflow.into());
+        }
+        self.depth += 1;
+        let result = self.evaluate_statement_impl();
+        self.depth -= 1;
+        result
+    }
+
+    fn evaluate_statement_impl(&mut self) -> Result<(), TracedInterpreterError> {
         match self.program().next_token() {
             Some(Token::Stop) => Ok(()),
             Some(Token::Dim) => self.evaluate_dim_statement(),
